@@ -45,22 +45,38 @@ class C28:
         lev = st.sampled_from(list(LEVELS) + ['y'])
         script = st.one_of(st.lists(lev, min_size=1, max_size=20), st.lists(lev, min_size=50, max_size=200)).map(''.join)
         return st.fixed_dictionaries({'levels': st.one_of(st.just('diwef'), st.sets(st.sampled_from(list(LEVELS))).map(lambda s: ''.join(sorted(s)))),
-                                      'scripts': st.lists(script, min_size=1, max_size=8), 'stop': st.one_of(st.just(-1), st.just(-2), st.just(-2), st.integers(0, 10 ** 6))})
+                                      'scripts': st.lists(script, min_size=1, max_size=8), 'stop': st.one_of(st.just(-1), st.just(-2), st.just(-2), st.integers(0, 10 ** 6)),
+                                      # injected schedule, one case in three: 1-2 submits (producer, position) are held inside the queue push - slot claimed, not yet
+                                      # published - until stop() has been entered
+                                      'holds': st.one_of(st.just([]), st.just([]), st.lists(st.tuples(st.integers(0, 7), st.sampled_from([0, 0, 0, 1, 2, 5, 50, 199])), min_size=1, max_size=2))})
 
     def run(self, case, ex):
-        scripts = case['scripts']
-        total = sum(1 for s in scripts for c in s if c != 'y')
+        scripts = list(case['scripts'])
+        held = 0
+        for p, at in case.get('holds', []):
+            if case['stop'] == -1:
+                break                   # stop after the producers have been joined: a held submit would only wait for its time limit
+            p %= len(scripts)
+            at %= len(scripts[p]) + 1
+            scripts[p] = scripts[p][:at] + 'h' + scripts[p][at:]
+            held += 1
+        total = sum(1 for s in scripts for c in s if c not in 'yh')
         if total == 0:
             return {}
         # stop: -1 = after the producer threads have been joined; -2 = the instant the last send has returned (the main thread spins on the counter of returned
         # sends: stop() follows the last submit within a microsecond, while the logger thread still holds a backlog); k = after the k-th returned send
         stop_after = -1 if case['stop'] == -1 else total if case['stop'] == -2 else case['stop'] % (total + 1)
+        if held:
+            # stop() cannot wait for a send that is itself held until stop() is entered: at most the sends that come before the first hold of their producer are awaited
+            free = sum(sum(1 for c in s.split('h')[0] if c != 'y') for s in scripts)
+            stop_after = min(stop_after, free)
         a = ex.call('logrun %s %d %d %s' % (case['levels'] or '-', len(scripts), stop_after, ';'.join(scripts)), timeout=170)
         text = bytes.fromhex(a['file']).decode('latin-1')
         lines = text.split('\n')
         if lines and lines[-1] == '':
             lines.pop()
-        desc = 'levels [%s], %d producers with %s lines, stop %s' % (case['levels'], len(scripts), [len(s) for s in scripts], 'after the producers' if stop_after < 0 else 'after %d returned sends' % stop_after)
+        desc = 'levels [%s], %d producers with %s lines, stop %s%s' % (case['levels'], len(scripts), [len(s) for s in scripts], 'after the producers' if stop_after < 0 else 'after %d returned sends' % stop_after,
+                                                                  '' if not held else ', held submits (h) in scripts %s' % [s if len(s) < 40 else s[:40] + '...' for s in scripts if 'h' in s])
 
         def fail(msg):
             raise Violation('C28: %s\n case: %s\n file (%d lines): %s' % (msg, desc, len(lines), lines[:12]))
@@ -76,14 +92,14 @@ class C28:
             seen[key] = seen.get(key, 0) + 1
             order.setdefault(key[0], []).append(key[1])
             p, k = key
-            if p >= len(scripts) or k >= len(scripts[p]) or scripts[p][k] == 'y':
+            if p >= len(scripts) or k >= len(scripts[p]) or scripts[p][k] in 'yh':
                 fail('line %r was never submitted' % ln)
             if LEVEL_NAMES[scripts[p][k]] != m.group(3):
                 fail('line %r carries level %r, it was submitted at %r' % (ln, m.group(3), LEVEL_NAMES[scripts[p][k]]))
         enabled_total = required = 0
         for p, s in enumerate(scripts):
             for k, c in enumerate(s):
-                if c == 'y':
+                if c in 'yh':
                     continue
                 r, before = a['ret'][p][k]
                 cnt = seen.get((p, k), 0)
@@ -103,7 +119,7 @@ class C28:
             if order.get(p, []) != sorted(order.get(p, [])):
                 fail('lines of producer %d are out of submission order: %s' % (p, order[p][:30]))
         return {'nontrivial': len(scripts) >= 2 and enabled_total >= 100, 'classes': ['producers:%d' % len(scripts), 'stop:' + ('after' if stop_after < 0 else 'during'),
-                                                                                   'levels:%d' % len(case['levels'])],
+                                                                                       'levels:%d' % len(case['levels'])] + (['held_submit_behind_stop'] if held else []),
                 'key': case, 'sample': {'levels': case['levels'], 'producers': len(scripts), 'lines_per_producer': [len(s) for s in scripts], 'stop_after': stop_after,
                                         'enabled_lines': enabled_total, 'required_lines': required, 'file_head': lines[:5]}}
 
